@@ -701,7 +701,7 @@ pub fn gen_world(rng: &mut StdRng, faults: bool) -> World {
   let npkgs = rng.gen_range(1..=3);
   let mut world = World {
     mods: Default::default(), roots: vec![], ext: Default::default(), sch: Default::default(), urls: Default::default(),
-    registry: Default::default(), lock: Default::default(), opts: Default::default(),
+    registry: Default::default(), lock: Default::default(), opts: Default::default(), npm: Default::default(),
   };
   let mut pkg_names: Vec<&str> = names.to_vec();
   pkg_names.shuffle(rng);
@@ -865,7 +865,7 @@ pub fn gen_world(rng: &mut StdRng, faults: bool) -> World {
 pub fn gen_info_world(rng: &mut StdRng) -> World {
   let mut world = World {
     mods: Default::default(), roots: vec![], ext: Default::default(), sch: Default::default(), urls: Default::default(),
-    registry: Default::default(), lock: Default::default(), opts: Default::default(),
+    registry: Default::default(), lock: Default::default(), opts: Default::default(), npm: Default::default(),
   };
   let name = "@s/p";
   let v = "1.0.0";
@@ -904,7 +904,11 @@ pub fn gen_info_world(rng: &mut StdRng) -> World {
       if it.t.starts_with("raw:") || it.t == "!bad" {
         it.sp = "0".into();
       }
-      if f == "static" && rng.gen_bool(0.25) {
+      // asset imports of package files (the file may or may not also be imported as a module elsewhere)
+      if matches!(f, "static" | "dynamic") && !it.t.starts_with("raw:") && it.t != "!bad" && rng.gen_bool(0.15) {
+        it.a = ["text", "bytes"][rng.gen_range(0..2)].into();
+      }
+      if f == "static" && it.a == "none" && rng.gen_bool(0.25) {
         let tt = &ids[rng.gen_range(0..ids.len())].0;
         if tt != &it.t {
           it.tt = tt.clone();
